@@ -34,6 +34,8 @@ RGBA = {'#000': (0, 0, 0, 255), 'black': (0, 0, 0, 255), '#fff': (255, 255, 255,
 
 def rgba(c):
     if isinstance(c, tuple):
+        if len(c) == 4 and isinstance(c[3], float):
+            return tuple(c[:3]) + (int(round(c[3] * 255)),)      # alpha given as a fraction
         return tuple(c) if len(c) == 4 else tuple(c) + (255,)
     return RGBA[c]
 
@@ -301,6 +303,7 @@ def _png_ob(fx, it, fn, tag, size, scale, border, kw):
             probs.append('PLTE presence does not match the colour type')
         if not probs:
             gotp = [[(0, 0, 0, 0) if p[3] == 0 else p for p in r_] for r_ in png['pixels']]
+            want = [[(0, 0, 0, 0) if p[3] == 0 else p for p in r_] for r_ in want]       # fully transparent: the colour does not matter
             d = render.first_diff(gotp, want)
             if d:
                 probs.append(d)
@@ -328,6 +331,10 @@ def r9(fx):
             for ex in extras:
                 kw = dict(ex, dark=d, light=l)
                 yield _png_ob(fx, it, fn, f'dark={d!r} light={l!r} {ex}', (11, 11), 1, 1, kw)
+    # alpha given as a fraction, and the smallest / largest integer alphas
+    for d, l in (((255, 0, 0, 0.5), '#fff'), ((255, 0, 0, 0.25), None), ((0, 0, 0, 1.0), '#fff'), ((255, 0, 0, 1), '#fff'), ((255, 0, 0, 1), None),
+                 ((255, 0, 0, 254), '#fff'), ((255, 0, 0, 0), '#fff'), ('#000', (0, 0, 255, 0.75)), ('#000', (255, 255, 255, 1))):
+        yield _png_ob(fx, it, fn, f'dark={d!r} light={l!r} {{}}', (11, 11), 1, 1, dict(dark=d, light=l))
 
 
 @rule('C09', 'R3', 12, 'iterator mapping and validation (C11.R6), validation before output (C14.R8)')
